@@ -54,7 +54,9 @@ RqProcess == /\ phase = "answered"
                   ELSE phase' = "open" /\ rqv' = [est |-> TRUE, acc |-> RqAccepted, peer |-> N!Eff(ans.maxlen)]
              /\ UNCHANGED <<c, req, ans, acv, wire>>
 
-Sizes(P) == IF Small(P) THEN {N!AddSmall(P, 5), N!AddSmall(P, 6), N!AddSmall(P, 7)} ELSE {<<0, 1000>>, <<1, 7>>}
+(* encoded sizes tried: single-PDV PDUs around the limit and multi-PDV PDUs *)
+(* (2, 3, 8 PDVs) up to one byte beyond limit + 6 per additional PDV       *)
+Sizes(P) == IF Small(P) THEN {N!AddSmall(P, d) : d \in {5, 6, 7, 12, 13, 18, 19, 48, 49}} ELSE {<<0, 1000>>, <<1, 7>>}
 SendPdu == /\ phase = "open"
            /\ \E side \in {"rq", "ac"} :
                 LET P == IF side = "rq" THEN rqv.peer ELSE acv.peer IN
